@@ -143,7 +143,54 @@ def gen_calls(gen, inst, rnd, n, temps=None):
     return calls
 
 
+def _kw(base_cls, name, values):
+    """The same call spelled with keyword arguments named as the documented (abstract) API
+    names them."""
+    import inspect
+    params = [p for p in inspect.signature(getattr(base_cls, name)).parameters if p != "self"]
+    return dict(zip(params, values))
+
+
 def perform(at, call):
+    kind, idx, method, args = call
+    # a third of the calls pass their arguments by keyword (deterministic per call)
+    if sum(map(ord, repr(call))) % 3 == 0 and kind in ("ac", "zone"):
+        return _perform_kw(at, call)
+    return _perform_pos(at, call)
+
+
+def _perform_kw(at, call):
+    kind, idx, method, args = call
+    acs = at.air_conditioners
+    A, Z = api.AirConditioner, api.Zone
+    if kind == "ac":
+        ac = acs[idx]
+        if method == "set_power":
+            return ac.set_power(**_kw(A, "set_power", [api.AcPowerControl[args[0]]]))
+        if method == "set_mode":
+            return ac.set_mode(**_kw(A, "set_mode", [api.AcMode[args[0]], args[1]]))
+        if method == "set_fan_speed":
+            return ac.set_fan_speed(**_kw(A, "set_fan_speed", [api.AcFanSpeed[args[0]]]))
+        if method == "set_target_temperature":
+            return ac.set_target_temperature(**_kw(A, "set_target_temperature", [args[0]]))
+        if method == "set_quick_timer_duration":
+            return ac.set_quick_timer(**_kw(A, "set_quick_timer", [
+                api.AcTimerType[args[0]], datetime.timedelta(seconds=args[1])]))
+        if method == "set_quick_timer_time":
+            return ac.set_quick_timer(**_kw(A, "set_quick_timer", [
+                api.AcTimerType[args[0]], datetime.time(args[1], args[2])]))
+        if method == "clear_quick_timer":
+            return ac.clear_quick_timer(**_kw(A, "clear_quick_timer", [api.AcTimerType[args[0]]]))
+    ac = acs[idx[0]]
+    z = next(z for z in ac.zones if z.zone_id == idx[1])
+    if method == "set_power":
+        return z.set_power(**_kw(Z, "set_power", [api.ZonePowerState[args[0]]]))
+    if method == "set_target_temperature":
+        return z.set_target_temperature(**_kw(Z, "set_target_temperature", [args[0]]))
+    return z.set_damper_percentage(**_kw(Z, "set_damper_percentage", [args[0]]))
+
+
+def _perform_pos(at, call):
     kind, idx, method, args = call
     if kind == "at":
         return at.check_for_updates()
